@@ -249,6 +249,37 @@ def register(reg):
             'implies(fNum >= self._numFrames * (self.repeat + 1), is_none(result[1])'
             ' and result[0] == fNum - self._numFrames * (self.repeat + 1))'],
         canaries=['is_none(result[1])', 'not is_none(result[1])'], crosscheck=False))
+    # ---- building the index: RLEItemType01.add / RLEType01.add
+    # the X-axis RLE inside a run is abstracted to its number of values (as for value() above): adding one value makes it one longer
+    reg.add_alternative(Contract(F, 'RLE.add', {'self': KRec('RLE', nvals=Int), 'v': Real}, returns=NoneK, trusted=True,
+                     modifies=['self.nvals'], ensures=['self.nvals == old(self.nvals) + 1'], name='RLE.add[x-axis]',
+                     note='X-axis add inside RLEItemType01: abstracted to "one more value"; RLE.add itself is proved against '
+                          'its full contract above (len(vals) grows by one)'),
+                        lambda eng, fn, args, st: isinstance(fn.selfv, Ref) and 'nvals' in st.heap[fn.selfv.oid].fields
+                        or isinstance(fn.selfv, Rec) and 'nvals' in fn.selfv.fields)
+    ABSORB = ('(numFrameS == old(self._numFrames) and (old(self.repeat) == 0'
+              ' or tellLrPos == old(self.datum) + old(self.stride) * (old(self.repeat) + 1)))')
+    reg.add(Contract(
+        FL, 'RLEItemType01.add', {'self': ITEM01, 'tellLrPos': Int, 'numFrameS': Int, 'xAxisValue': Real}, requires=I01_REQ,
+        returns=Bool, modifies=['self.stride', 'self.repeat', 'self._rleXaxis.nvals'], crosscheck=False,
+        ensures=[
+            # a record joins the run only with the same frame count and at the extrapolated file position ...
+            'result == %s' % ABSORB,
+            # ... and then it is the new last record of the run, and the X axis got exactly one more value
+            'implies(result, self.repeat == old(self.repeat) + 1 and tellLrPos == self.datum + self.repeat * self.stride'
+            ' and self._rleXaxis.nvals == self.repeat + 1)',
+            'implies(result and old(self.repeat) > 0, self.stride == old(self.stride))',
+            # a refused record leaves the run as it was (the side effect of the base class add must not leak)
+            'implies(not result, self.stride == old(self.stride) and self.repeat == old(self.repeat)'
+            ' and self._rleXaxis.nvals == old(self._rleXaxis.nvals))'],
+        canaries=['result', 'not result']))
+    # RLEItemType01.__init__ is executed from its real body; the X-axis RLE it creates is the abstract one (no values yet)
+    reg.add_alternative(Contract(F, 'RLE.__init__', {'self': KRec('RLE'), 'theFunc': NoneK}, returns=NoneK, trusted=True,
+                     modifies=[('self.nvals', Int)], ensures=['self.nvals == 0'], name='RLE.__init__[x-axis]',
+                     note='X-axis RLE created inside RLEItemType01.__init__: abstracted to "no values yet"; RLE.__init__ and '
+                          'RLE.num_values are proved above (no runs, so no values)'),
+                        lambda eng, fn, args, st: eng.frame.qual == 'RLEItemType01.__init__')
+    reg.add(Contract(FL, 'RLEItemType01.__init__', inline=True))
     T01 = KRec('RLEType01', rle_items=KView(ITEM01), function=NoneK)
     SPEC01 = '''
 def t01_ri(items, fstart):
@@ -284,6 +315,47 @@ def gen(rnd, module):
     return {'self': t, 'fstart': fstart, 'run': run, 'fNum': f}
 '''
     G01 = {'fstart': KView(Int)}
+    GEN01ADD = '''
+def gen(rnd, module):
+    module.RLE.nvals = property(lambda s: s.num_values(), lambda s, v: None)     # the abstraction of the X-axis RLE, read live
+    t = module.RLEType01('FEET')
+    pos = 100
+    for _ in range(rnd.randint(0, 7)):
+        pos += rnd.choice([10, 10, 10, 17, 24])
+        t.add(pos, rnd.choice([1, 2, 3, 3, 5]), float(pos))
+    fstart = [0]
+    for it in t.rle_items:
+        fstart.append(fstart[-1] + it._numFrames * (it.repeat + 1))
+        it._rleXaxis.nvals = it._rleXaxis.num_values()
+    return {'self': t, 'fstart': fstart, 'tellLrPos': pos + rnd.choice([10, 10, 17, 24]), 'numFrameS': rnd.choice([1, 2, 3, 3, 5]),
+            'xAxisValue': float(pos)}
+'''
+    NI, LASTI = 'len(self.rle_items)', 'self.rle_items[len(self.rle_items) - 1]'
+    OLDM = 'len(old(self.rle_items)) - 1'
+    reg.add(Contract(
+        FL, 'RLEType01.add', {'self': T01, 'tellLrPos': Int, 'numFrameS': Int, 'xAxisValue': Real}, ghost=G01,
+        requires=['t01_ri(self.rle_items, fstart)', 'numFrameS >= 1'], modifies=['self.rle_items'], returns=NoneK,
+        native_gen=GEN01ADD,
+        ghost_post={'fstart': 'ite(len(self.rle_items) == len(old(self.rle_items)),'
+                              ' fstart[:len(fstart) - 1] + [fstart[len(fstart) - 1] + numFrameS],'
+                              ' fstart + [fstart[len(fstart) - 1] + numFrameS])'},
+        ensures=[
+            't01_ri(self.rle_items, fstart)', 'is_none(self.function)',
+            # the index now ends with this record: its frames are the last numFrameS frames, at this file position
+            '%s >= 1 and fstart[%s] == old(fstart[len(fstart) - 1]) + numFrameS' % (NI, NI),
+            '%s._numFrames == numFrameS and %s.datum + %s.repeat * %s.stride == tellLrPos' % (LASTI, LASTI, LASTI, LASTI),
+            # nothing recorded before is disturbed: earlier runs are untouched, the last run keeps its start and spacing
+            '%s == len(old(self.rle_items)) or %s == len(old(self.rle_items)) + 1' % (NI, NI),
+            'forall(0, len(old(self.rle_items)) - 1, lambda j: self.rle_items[j].datum == old(self.rle_items)[j].datum'
+            ' and self.rle_items[j].stride == old(self.rle_items)[j].stride and self.rle_items[j].repeat == old(self.rle_items)[j].repeat'
+            ' and self.rle_items[j]._numFrames == old(self.rle_items)[j]._numFrames)',
+            'forall(0, len(old(self.rle_items)), lambda j: fstart[j] == old(fstart)[j])',
+            # the run that was last keeps its first position and frame count, loses no record, and (once it has a spacing) keeps it
+            'implies(len(old(self.rle_items)) > 0, self.rle_items[%s].datum == old(self.rle_items)[%s].datum'
+            ' and self.rle_items[%s]._numFrames == old(self.rle_items)[%s]._numFrames'
+            ' and self.rle_items[%s].repeat >= old(self.rle_items)[%s].repeat'
+            ' and implies(old(self.rle_items)[%s].repeat > 0, self.rle_items[%s].stride == old(self.rle_items)[%s].stride))' % ((OLDM,) * 9)],
+        canaries=['len(self.rle_items) == len(old(self.rle_items))', 'len(self.rle_items) != len(old(self.rle_items))']))
     reg.add(Contract(
         FL, 'RLEType01.totalFrames', {'self': T01}, ghost=G01, requires=['t01_ri(self.rle_items, fstart)'], returns=Int,
         native_gen=GEN01.replace(", 'run': run, 'fNum': f", ''),
